@@ -90,6 +90,10 @@ class Leaf(KDDataset):
             return np.array(self.classes, dtype=np.int64)
         if self.getall_kind == "tensor":
             return torch.tensor(self.classes, dtype=torch.long)
+        if ":" in self.getall_kind:
+            # narrow label dtypes as label files hold them: "ndarray:uint8", "tensor:int16", ...
+            kind, dt = self.getall_kind.split(":")
+            return np.array(self.classes, dtype=getattr(np, dt)) if kind == "ndarray" else torch.tensor(self.classes, dtype=getattr(torch, dt))
         raise ValueError(self.getall_kind)
 
     def getshape_class(self):
